@@ -248,8 +248,8 @@ func recordC07(env *Env) {
 		rng := rand.New(rand.NewSource(seeds[i]))
 		if i%2 == 0 {
 			// long sequences, few operations: New; op; op (windows and strands of long reads)
-			maxLen := 300
-			if i%8 == 0 {
+			maxLen := 200
+			if i%16 == 0 {
 				maxLen = 1200 // beyond the 1024-byte pool limit
 			}
 			nsteps := 2 + rng.Intn(3)
